@@ -12,7 +12,7 @@ import (
 )
 
 func init() {
-	props["C05"] = &propDef{run: runC05, explanation: "Partial (thin): that the 377-line recursive-descent re-serialiser and the number formatter produce the RFC 8785 form for every I-JSON value (fixed point, value preservation, spelling independence) is value-level and NOT decided. Decided statically — the constants and tables the RFC fixes, each a necessary condition: (T1) the two escape tables hold the seven RFC 8785 two-character escapes pairwise aligned, and reader and writer index both tables with one loop variable; (K1) the writer emits the remaining control characters (< 0x20) with the format \\u%04x (lower-case hex) and the reader rejects raw control bytes inside strings; (K2) NumberToJSON rejects NaN/Infinity by the exponent mask 0x7ff0000000000000, maps ±0 to \"0\", and selects fixed notation exactly for 1e-6 ≤ |x| < 1e21; (P1) the member sort key is unicode/utf16.Encode of the runes of the parsed member name, the ordering function reads only sort keys, equal keys raise an error, and a preceding key is inserted before the compared element; (P2) MarshalCanonical hands every value to Transform (json.Marshal first unless it already is []byte); (K3) the whitespace set is {0x20,0x0a,0x0d,0x09} and the literal table {true,false,null}. (K2) every string-valued call the accepted number text depends on is strconv.FormatFloat; (P2) canonicalisation, hashing and commitment functions read no package-level state that changes after initialisation."}
+	props["C05"] = &propDef{run: runC05, explanation: "Partial (thin): that the 377-line recursive-descent re-serialiser and the number formatter produce the RFC 8785 form for every I-JSON value (fixed point, value preservation, spelling independence) is value-level and NOT decided. Decided statically — the constants and tables the RFC fixes, each a necessary condition: (T1) the two escape tables hold the seven RFC 8785 two-character escapes pairwise aligned, and reader and writer index both tables with one loop variable; (K1) the writer emits the remaining control characters (< 0x20) with the format \\u%04x (lower-case hex) and the reader rejects raw control bytes inside strings; (K2) NumberToJSON rejects NaN/Infinity by the exponent mask 0x7ff0000000000000, maps ±0 to \"0\", and selects fixed notation exactly for 1e-6 ≤ |x| < 1e21; (P1) the member sort key is unicode/utf16.Encode of the runes of the parsed member name, the ordering function reads only sort keys, equal keys raise an error, and a preceding key is inserted before the compared element; (P2) MarshalCanonical hands every value to Transform (json.Marshal first unless it already is []byte); (K3) the whitespace set is {0x20,0x0a,0x0d,0x09} and the literal table {true,false,null}. (K2) every string-valued call the accepted number text depends on is strconv.FormatFloat; (P2) canonicalisation, hashing and commitment functions read no package-level state that changes after initialisation. A string token is emitted as writer(reader()) (P4). With no differing code unit the shorter sort key precedes, equal keys raise the duplicate error, a longer key does not precede (three orderings of the two lengths)."}
 }
 
 // globalByteSlice: constants of a package-level []byte / []string literal initialised in init.
@@ -448,12 +448,21 @@ func (c *Ctx) jcsRules() {
 						if !isB {
 							continue
 						}
-						k, isK := bo.Y.(*ssa.Const)
-						if !isK || !isMag(c.Path(bo.X, nil)) {
+						// the magnitude on the left, the constant on the right, the relation as it holds on this edge
+						// (`1e-6 <= x` is `x >= 1e-6`; `x < c` being false is `x >= c`)
+						mag, kv, op := bo.X, bo.Y, bo.Op
+						if _, isKx := mag.(*ssa.Const); isKx {
+							mag, kv, op = bo.Y, bo.X, flipOp(op)
+						}
+						k, isK := kv.(*ssa.Const)
+						if !isK || !isMag(c.Path(mag, nil)) || !isCmp(op) {
 							continue
 						}
+						if id.Succs[0] != b {
+							op = negOp(op)
+						}
 						f64, _ := constant.Float64Val(k.Value)
-						conds = append(conds, fmt.Sprintf("|x| %s %g = %v", bo.Op, f64, id.Succs[0] == b))
+						conds = append(conds, fmt.Sprintf("|x| %s %g = true", op, f64))
 					}
 				}
 				sort.Strings(conds)
@@ -684,6 +693,9 @@ func (c *Ctx) jcsRules() {
 				}
 			}
 			c.Check("C05.P1", "duplicate-key-error", okDup, cmpFn.Pos(), "keys equal in every code unit and in length raise an error")
+			if libCmp == nil {
+				c.prefixCaseRule("C05.P1", cmpFn)
+			}
 		}
 		// insertion before the first element the new key precedes; otherwise append
 		okIns := false
@@ -824,7 +836,45 @@ func (c *Ctx) jcsRules() {
 		}
 		c.Check("C05.K4", "surrogate-pair-detection", okS, tr.Pos(), detail)
 	}
-	c.Min("C05.K4", 1)
+	// the four hex digits of a \uXXXX escape are turned into a number by the standard library's base-16 parser (or
+	// encoding/hex): a hand-written digit table is where 'a'-'f' / 'A'-'F' go wrong for exactly the escapes the tests
+	// do not contain
+	{
+		var reader *ssa.Function
+		for _, f := range append([]*ssa.Function{tr}, tr.AnonFuncs...) {
+			if f.Signature.Params().Len() != 0 || f.Signature.Results().Len() != 1 {
+				continue
+			}
+			if bt, isB := f.Signature.Results().At(0).Type().Underlying().(*types.Basic); !isB || bt.Kind() != types.Int32 {
+				continue
+			}
+			reader = f
+		}
+		okHex, detail := false, "no closure of Transform returns a rune read from the input"
+		if reader != nil {
+			c.Analysed(reader)
+			okHex = true
+			n := 0
+			for _, r := range returnsOf(reader) {
+				p := c.Path(returnedValue(r, 0), nil)
+				if p == "0" {
+					continue
+				}
+				n++
+				detail = p
+				lib := (strings.Contains(p, "strconv.ParseUint(") || strings.Contains(p, "strconv.ParseInt(")) && strings.Contains(p, ",16,")
+				if !lib && !strings.Contains(p, "encoding/hex.Decode") {
+					okHex = false
+				}
+				if strings.Contains(p, " - 48)") || strings.Contains(p, " - 87)") || strings.Contains(p, " - 55)") || strings.Contains(p, " - 97)") || strings.Contains(p, " - 65)") || strings.Contains(p, " << 4)") {
+					okHex = false
+				}
+			}
+			okHex = okHex && n >= 1
+		}
+		c.Check("C05.K4", "u-escape:decoded-by-library-hex-parser", okHex, tr.Pos(), "the value of a \\uXXXX escape is strconv.ParseUint(digits, 16, …) of the four characters read: "+detail)
+	}
+	c.Min("C05.K4", 2)
 
 	// ---- P2
 	c.hashLeafContracts("C05.P2")
@@ -855,7 +905,100 @@ func (c *Ctx) jcsRules() {
 		lits := c.globalSliceLiteral(c.Global(pJC, "literals"))
 		c.Check("C05.K3", "literal-table", eqStrs(lits, []string{"true", "false", "null"}), 0, fmt.Sprintf("literals = %v", lits))
 	}
-	c.Min("C05.K3", 2)
+	// every other place of the package that tells whitespace from other bytes tells all of it: a set of bytes (a string
+	// constant searched for a byte, or the constants one value is compared with) that holds two or more of the four
+	// whitespace characters holds all four — a token terminator set without CR ends a token at LF but not at CR
+	{
+		ws := map[string]bool{" ": true, "\t": true, "\n": true, "\r": true}
+		wsCode := map[string]string{"32": " ", "9": "\t", "10": "\n", "13": "\r"}
+		n := 0
+		var bad []string
+		for _, f := range c.Funcs {
+			if pkgPathOf(f) != pkgPathOf(tr) {
+				continue
+			}
+			// string constants
+			forEachInstr(f, func(in ssa.Instruction) {
+				var ops []*ssa.Value
+				for _, op := range in.Operands(ops) {
+					k, isK := (*op).(*ssa.Const)
+					if !isK || k.Value == nil || k.Value.Kind() != constant.String {
+						continue
+					}
+					got := map[string]bool{}
+					for _, r := range constant.StringVal(k.Value) {
+						if ws[string(r)] {
+							got[string(r)] = true
+						}
+					}
+					if len(got) >= 2 {
+						n++
+						if len(got) != 4 {
+							bad = append(bad, fmt.Sprintf("%s at %s: the byte set %q holds %d of the 4 whitespace characters", short(f.String()), c.pos(in.Pos()), constant.StringVal(k.Value), len(got)))
+						}
+					}
+				}
+			})
+			// constants one value is compared with for equality
+			by := map[string]map[string]bool{}
+			forEachInstr(f, func(in ssa.Instruction) {
+				bo, isB := in.(*ssa.BinOp)
+				if !isB || (bo.Op != token.EQL && bo.Op != token.NEQ) {
+					return
+				}
+				v, k := bo.X, bo.Y
+				if _, isK := v.(*ssa.Const); isK {
+					v, k = k, v
+				}
+				kc, isK := k.(*ssa.Const)
+				if !isK || kc.Value == nil || kc.Value.Kind() != constant.Int {
+					return
+				}
+				if w, isWS := wsCode[kc.Value.ExactString()]; isWS {
+					p := c.Path(v, nil)
+					if by[p] == nil {
+						by[p] = map[string]bool{}
+					}
+					by[p][w] = true
+				}
+			})
+			for p, got := range by {
+				if len(got) >= 2 {
+					n++
+					if len(got) != 4 {
+						bad = append(bad, fmt.Sprintf("%s: %s is compared with %d of the 4 whitespace characters", short(f.String()), p, len(got)))
+					}
+				}
+			}
+		}
+		sort.Strings(bad)
+		c.Check("C05.K3", "whitespace-sets-complete", len(bad) == 0 && n >= 1, tr.Pos(), fmt.Sprintf("%d byte set(s) of the package mention whitespace; each holds all of {0x20, 0x09, 0x0a, 0x0d}", n), bad...)
+	}
+	// a decoded code unit or code point reaches the output as UTF-8 (WriteRune / string conversion), never as one byte
+	// cut out of a wider integer: `WriteByte(byte(u))` of a value above 0x7f writes a byte that is not UTF-8
+	{
+		var bad []string
+		n := 0
+		for _, f := range c.Funcs {
+			if pkgPathOf(f) != pkgPathOf(tr) {
+				continue
+			}
+			forEachInstr(f, func(in ssa.Instruction) {
+				cl, isC := in.(*ssa.Call)
+				if !isC || cl.Call.StaticCallee() == nil || !strings.HasSuffix(cl.Call.StaticCallee().String(), ").WriteByte") || len(cl.Call.Args) != 2 {
+					return
+				}
+				n++
+				if cv, isCv := cl.Call.Args[1].(*ssa.Convert); isCv {
+					if bt, isB := cv.X.Type().Underlying().(*types.Basic); isB && bt.Info()&types.IsInteger != 0 && bt.Kind() != types.Uint8 && bt.Kind() != types.Int8 {
+						bad = append(bad, fmt.Sprintf("%s at %s: WriteByte(byte(%s)) of a %s", short(f.String()), c.pos(cl.Pos()), c.Path(cv.X, nil), bt.Name()))
+					}
+				}
+			})
+		}
+		c.Check("C05.K3", "no-byte-cut-from-wider-integer", len(bad) == 0 && n >= 1, tr.Pos(), fmt.Sprintf("%d WriteByte call(s) in the package; none writes a byte converted from a wider integer", n), bad...)
+	}
+	c.Min("C05.K3", 4)
 	c.Assume("strconv.FormatFloat(-1 precision) yields the shortest round-trip digits; correctness of the re-serialiser as a whole (fixed point, value preservation) is not decided")
 }
 
@@ -880,4 +1023,175 @@ func isIndexSearch(cl *ssa.Call) bool {
 	}
 	// (an instance of a generic function has no package of its own)
 	return pkgPathOf(g) == "slices" && strings.HasPrefix(g.Name(), "Index")
+}
+
+// prefixCaseRule: once the code-unit loop of the ordering function has found no difference (one key is a prefix of the
+// other, or they are equal), the answer depends on the two lengths only. Decided on the three orderings of
+// (len(new key), len(old key)) by following the branches after the loop: shorter new key => precedes; equal => the
+// duplicate error and no insertion; longer => does not precede.
+func (c *Ctx) prefixCaseRule(rule string, cmpFn *ssa.Function) {
+	var start *ssa.BasicBlock
+	for _, l := range naturalLoops(cmpFn) {
+		if _, isIf := l.header.Instrs[len(l.header.Instrs)-1].(*ssa.If); !isIf {
+			continue
+		}
+		for _, sc := range l.header.Succs {
+			if !l.blocks[sc] {
+				start = sc
+			}
+		}
+	}
+	if start == nil {
+		c.Check(rule, "prefix-case:shorter-key-first", false, cmpFn.Pos(), "no code-unit loop with an exit at its head in the ordering function: shape not understood")
+		return
+	}
+	// lenSym: which of the two lengths v is under ordering o (sign of len(new) - len(old)): "N", "O"
+	var lenSym func(v ssa.Value, o, d int) string
+	var cmpVal func(bo *ssa.BinOp, o, d int) (bool, bool)
+	lenSym = func(v ssa.Value, o, d int) string {
+		if d > 6 {
+			return ""
+		}
+		p := c.Path(v, nil)
+		switch {
+		case p == "len($0)":
+			return "N"
+		case strings.HasPrefix(p, "len(") && strings.HasSuffix(p, ".sortKey)"):
+			return "O"
+		}
+		switch x := v.(type) {
+		case *ssa.Phi:
+			// min / max of the two lengths: the edge taken under this ordering
+			id := x.Block().Idom()
+			if id == nil || len(x.Edges) != 2 {
+				return ""
+			}
+			iff, isIf := id.Instrs[len(id.Instrs)-1].(*ssa.If)
+			if !isIf {
+				return ""
+			}
+			bo, isB := iff.Cond.(*ssa.BinOp)
+			if !isB {
+				return ""
+			}
+			t, ok := cmpVal(bo, o, d+1)
+			if !ok {
+				return ""
+			}
+			taken := id.Succs[1]
+			if t {
+				taken = id.Succs[0]
+			}
+			for i, pred := range x.Block().Preds {
+				if (pred == id && taken == x.Block()) || pred == taken {
+					return lenSym(x.Edges[i], o, d+1)
+				}
+			}
+			return ""
+		case *ssa.Call:
+			// min(a, b) / max(a, b)
+			if bi, isB := x.Call.Value.(*ssa.Builtin); isB && len(x.Call.Args) == 2 && (bi.Name() == "min" || bi.Name() == "max") {
+				a, b := lenSym(x.Call.Args[0], o, d+1), lenSym(x.Call.Args[1], o, d+1)
+				if a == "" || b == "" {
+					return ""
+				}
+				if a == b || o == 0 {
+					return a
+				}
+				small := "N"
+				if o > 0 {
+					small = "O"
+				}
+				if bi.Name() == "min" {
+					return small
+				}
+				if small == "N" {
+					return "O"
+				}
+				return "N"
+			}
+		}
+		return ""
+	}
+	cmpVal = func(bo *ssa.BinOp, o, d int) (bool, bool) {
+		x, y := lenSym(bo.X, o, d), lenSym(bo.Y, o, d)
+		if x == "" || y == "" || !isCmp(bo.Op) {
+			return false, false
+		}
+		diff := 0 // x - y
+		switch {
+		case x == "N" && y == "O":
+			diff = o
+		case x == "O" && y == "N":
+			diff = -o
+		}
+		switch bo.Op {
+		case token.LSS:
+			return diff < 0, true
+		case token.LEQ:
+			return diff <= 0, true
+		case token.GTR:
+			return diff > 0, true
+		case token.GEQ:
+			return diff >= 0, true
+		case token.EQL:
+			return diff == 0, true
+		case token.NEQ:
+			return diff != 0, true
+		}
+		return false, false
+	}
+	want := map[int]string{-1: "true", 0: "false+error", 1: "false"}
+	name := map[int]string{-1: "new key shorter", 0: "same length", 1: "new key longer"}
+	var bad []string
+	for _, o := range []int{-1, 0, 1} {
+		b := start
+		got, raised := "", false
+		for steps := 0; steps < 32 && got == ""; steps++ {
+			for _, in := range b.Instrs {
+				if cl, isC := in.(*ssa.Call); isC && cl.Call.StaticCallee() == nil && len(cl.Call.Args) == 1 && isStringType(cl.Call.Args[0].Type()) {
+					raised = true
+				}
+			}
+			switch t := b.Instrs[len(b.Instrs)-1].(type) {
+			case *ssa.Return:
+				got = c.Path(t.Results[0], nil)
+				if got == "true" || got == "false" {
+					break
+				}
+				// the comparison itself returned
+				if bo, isB := t.Results[0].(*ssa.BinOp); isB {
+					if v, ok := cmpVal(bo, o, 0); ok {
+						got = fmt.Sprint(v)
+					}
+				}
+			case *ssa.If:
+				bo, isB := t.Cond.(*ssa.BinOp)
+				v, ok := false, false
+				if isB {
+					v, ok = cmpVal(bo, o, 0)
+				}
+				if !ok {
+					got = "undecided at " + c.Path(t.Cond, nil)
+					break
+				}
+				if v {
+					b = b.Succs[0]
+				} else {
+					b = b.Succs[1]
+				}
+			case *ssa.Jump:
+				b = b.Succs[0]
+			default:
+				got = "undecided"
+			}
+		}
+		if raised {
+			got += "+error"
+		}
+		if got != want[o] {
+			bad = append(bad, fmt.Sprintf("%s: %s (expected %s)", name[o], got, want[o]))
+		}
+	}
+	c.Check(rule, "prefix-case:shorter-key-first", len(bad) == 0, start.Instrs[0].Pos(), "with no differing code unit: the shorter key precedes, equal keys raise the duplicate error, a longer key does not precede", bad...)
 }
